@@ -9,7 +9,7 @@ EXPLANATION = (
     "d3_scale_linearTickRange for the millisecond and multi-year cases, d3TimeScaleMilliseconds.range, d3_time_interval.range/ceil and every "
     "unit's _local/_step/_number) on a symbolic domain [t0, t1] of naive datetimes at ms resolution between 1900 and 2200. The span range "
     "[1 ms, 250 years] is partitioned at m times the entries of the code's own step table (one configuration per window, so every tick method is "
-    "reached and each interval.range loop is bounded; the choice between neighbouring methods inside a window is the code's, decided exactly). "
+    "reached and each interval.range loop is bounded; plus histories on ONE scale object - domain A, ticks(m), domain B of a very different span, ticks(m) again -; the choice between neighbouring methods inside a window is the code's, decided exactly). "
     "Per path z3 proves: no exception (any exception escaping the code is a violation); strictly increasing; every tick in [t0, t1] (1 ms slack only "
     "when all gaps are sub-second); count in [m/2.4 - 1, 2.4 m + 1] or, for spans shorter than m ms, one tick per millisecond; all pairs of "
     "consecutive gaps within a factor two; and alignment by the spacing actually delivered: all gaps >= 1 s => whole seconds, >= 1 min => whole "
